@@ -86,6 +86,15 @@ func main() {
 		for _, e := range entryDefs {
 			if e.unit == a[0] {
 				l, u, ok := sa.analyse(e.fn)
+				if !ok && strings.Contains(e.fn, "#") { // a goroutine body: found by what it does
+					if fb := sa.goTargetOf(strings.Split(e.ops, ",")[0]); fb != nil {
+						var wr string
+						l, u, wr, ok = sa.analyseBody(fb)
+						if which == 2 {
+							return wr
+						}
+					}
+				}
 				if !ok {
 					return "unrecognised:no-such-function"
 				}
@@ -104,6 +113,28 @@ func main() {
 	r.Register("locks", func(a []string) string { return static(a, 0) })
 	r.Register("unlocked", func(a []string) string { return static(a, 1) })
 	r.Register("writes", func(a []string) string { return static(a, 2) })
+	var cres *censusResult
+	censusOf := func(which string) string {
+		if sa == nil && saErr == nil {
+			sa, saErr = loadStatic(p.repo)
+		}
+		if saErr != nil {
+			return "static-load-failed:" + saErr.Error()
+		}
+		if cres == nil {
+			cres = sa.census()
+		}
+		switch which {
+		case "balance":
+			return setText(cres.balance)
+		case "blockcensus":
+			return setText(cres.blocking)
+		}
+		return setText(cres.pkgvars)
+	}
+	r.Register("balance", func(a []string) string { return censusOf("balance") })
+	r.Register("blockcensus", func(a []string) string { return censusOf("blockcensus") })
+	r.Register("pkgvars", func(a []string) string { return censusOf("pkgvars") })
 	r.Register("gocensus", func(a []string) string {
 		if sa == nil && saErr == nil {
 			sa, saErr = loadStatic(p.repo)
@@ -145,6 +176,9 @@ func main() {
 	}
 	if sa != nil {
 		r.Do("gocensus")
+		r.Do("balance")
+		r.Do("blockcensus")
+		r.Do("pkgvars")
 		for k, n := range sa.unrec {
 			r.Stat("static.unrecognised."+k, int64(n))
 		}
